@@ -199,7 +199,8 @@ def run(res, tier, seed, shard, nshards):
                     check_validator(res, W, pre + head + tail + gap, "block-structure")
                     res.count("block_structure_strings", 2)
     # 4. receive path -----------------------------------------------------------
-    recv_path(res, W, tier, rng, shard, nshards)
+    with H.ambient((shard, "C06"), res, dims=("multithread", "tls", "dispatcher", "high_fd")):
+        recv_path(res, W, tier, rng, shard, nshards)
     # 5. through WebSocketApp ---------------------------------------------------
     app_path(res, W, tier, rng, shard, nshards)
 
